@@ -27,9 +27,15 @@ def main():
         i = a.index("--checks"); checks = a[i + 1].split(","); del a[i:i + 2]
     if "--budget" in a:
         i = a.index("--budget"); budget = a[i + 1]; del a[i:i + 2]
-    prop, n, demo_src, demo_dest = a[0], a[1], a[2], a[3]
-    test_args = " ".join(a[4:])
+    prop, n = a[0], a[1]
     src = os.path.join(os.environ.get("SEED_SRC", "/var/tmp/wave1"), prop, n)
+    if len(a) >= 4:
+        demo_src, demo_dest = a[2], a[3]
+        test_args = " ".join(a[4:])
+    else:
+        m = json.load(open(os.path.join(src, "meta.json")))
+        demo_src = "demo_test.go.txt"
+        demo_dest, test_args = m["demo_dest"], m["demo_run"]
     patch = os.path.join(src, "patch.diff")
     d = tempfile.mkdtemp(prefix="seed-", dir="/var/tmp")
     out = {"property": prop, "n": n}
@@ -74,7 +80,7 @@ def main():
             if p.returncode == 2:
                 out["checks"][c]["stderr"] = p.stderr[-800:]
         if ok:
-            dest = os.path.join(VERIF, "seeded", "%s-%s" % (prop, n))
+            dest = os.path.join(VERIF, "seeded", "%s-%s%s" % (prop, os.environ.get("SEED_TAG", ""), n))
             os.makedirs(dest, exist_ok=True)
             shutil.copy(patch, os.path.join(dest, "patch.diff"))
             shutil.copy(os.path.join(src, demo_src), os.path.join(dest, demo_src))
